@@ -2,12 +2,15 @@
    syntax errors.  Statements only; proofs are in Proofs/*.v.
    Model: Lang/Lexer.v, Lang/Parser.v, Lang/Loc.v.  Specs: Spec/LexSpec.v,
    Spec/GrammarSpec.v. *)
+(* printer-side vocabulary first, so that the lexer / parser names below win *)
+From PyGql Require Import Spec.PrinterSpec Proofs.PrinterExecRoundtrip.
 From PyGql Require Import Lang.Parser Lang.Loc Spec.LexSpec Spec.GrammarSpec Spec.OutcomeSpec
   Proofs.LexProofs Proofs.LexTotal Proofs.ParserFramework Proofs.ParserTotal Proofs.ParserTop
   Proofs.GrammarProofs Proofs.EntryProofs Proofs.LocProofs
   Spec.DocGrammarSpec Proofs.DocGrammarSound Proofs.DocGrammarComplete Proofs.DocEntryProofs
   Spec.LexicalSpec Proofs.LexicalProofs Proofs.AcceptProofs
-  Spec.SdlGrammarSpec Proofs.SdlGrammarSound Proofs.SdlGrammarComplete Proofs.SdlLookahead Proofs.SdlEntryProofs.
+  Spec.SdlGrammarSpec Proofs.SdlGrammarSound Proofs.SdlGrammarComplete Proofs.SdlLookahead Proofs.SdlEntryProofs
+  Spec.ExecOnlySpec Proofs.ParseOutputWf Proofs.FollowProofs Proofs.StrictAcceptProofs.
 
 (* ---- numbers: the automaton of _read_number accepts exactly IntValue /
    FloatValue followed by an admissible character ---- *)
@@ -271,6 +274,71 @@ Theorem C01_accepts_type : forall fl s t,
   exists ts body, lexes_slack s ts /\ whole ts body /\ D_type (no_location fl) body t.
 Proof. exact accepts_type. Qed.
 Print Assumptions C01_accepts_type.
+
+(* ---- C01_follow: the slack of the number look-ahead is unobservable ---- *)
+
+(* No derivable document (any flags, executable and type-system definitions),
+   and no standalone value or type, has a Float token directly before an Ellip
+   token: a FloatValue only occurs inside parentheses, brackets or braces, where
+   it is followed by a closing punctuator, a Name, a $, an @, a string or
+   another value. *)
+Theorem C01_follow : forall nl fv en ts d, D_document nl fv en ts d -> nfe ts.
+Proof. exact follow_document. Qed.
+Print Assumptions C01_follow.
+
+Theorem C01_follow_value_type : forall nl ts body,
+  whole ts body -> (forall c v, D_value nl c body v -> nfe ts) /\ (forall t, D_type nl body t -> nfe ts).
+Proof. intros nl ts body Hw. split; intros; [eapply whole_nfe_value|eapply whole_nfe_type]; eassumption. Qed.
+Print Assumptions C01_follow_value_type.
+
+(* Hence acceptance is characterised exactly by the DOCUMENTED lexical grammar
+   (no digit, no dot, no NameStart after a number) as well: *)
+Theorem C01_accepts_document_strict : forall fl s d,
+  parse_document fl s = Ok d <->
+  exists ts, lexes s ts /\
+    D_document_la (no_location fl) (fragment_variables fl) (allow_type_system fl) ts d.
+Proof. exact accepts_document_strict. Qed.
+Print Assumptions C01_accepts_document_strict.
+
+Theorem C01_accepts_exec_strict_iff : forall fl s d, allow_type_system fl = false ->
+  (parse_document fl s = Ok d <->
+   exists ts, lexes s ts /\ D_document_exec (no_location fl) (fragment_variables fl) ts d).
+Proof. exact accepts_exec_strict_iff. Qed.
+Print Assumptions C01_accepts_exec_strict_iff.
+
+Theorem C01_accepts_value_strict : forall fl s v,
+  parse_value_str fl s = Ok v <->
+  exists ts body, lexes s ts /\ whole ts body /\ D_value (no_location fl) false body v.
+Proof. exact accepts_value_strict. Qed.
+Print Assumptions C01_accepts_value_strict.
+
+Theorem C01_accepts_type_strict : forall fl s t,
+  parse_type_str fl s = Ok t <->
+  exists ts body, lexes s ts /\ whole ts body /\ D_type (no_location fl) body t.
+Proof. exact accepts_type_strict. Qed.
+Print Assumptions C01_accepts_type_strict.
+
+(* ---- what the parser returns is well-formed in the sense of the printer
+   round trip (C03) ---- *)
+
+(* For every flag triple: a returned document without type-system definitions
+   satisfies wf_exec_doc (Proofs/PrinterExecRoundtrip.v, the hypothesis of
+   C03_exec_roundtrip): at least one definition; names are Names; fragment
+   names and spreads are not "on"; type conditions are named types; selection
+   sets are non-empty and present exactly when recorded; numbers are IntValue /
+   FloatValue lexemes; enum values are not true / false / null; block string
+   values are canonical and made of source characters; fragment variable
+   definitions only with the flag.  The predicate ignores locations, so it holds
+   of the tree and of the tree with locations erased. *)
+Theorem C01_parse_output_wf : forall fl s d,
+  parse_document fl s = Ok d -> exec_only d -> wf_exec_doc (fragment_variables fl) d.
+Proof. exact parse_output_wf. Qed.
+Print Assumptions C01_parse_output_wf.
+
+Theorem C01_parse_output_wf_strip : forall fl s d,
+  parse_document fl s = Ok d -> exec_only d -> wf_exec_doc (fragment_variables fl) (strip_doc d).
+Proof. exact parse_output_wf_strip. Qed.
+Print Assumptions C01_parse_output_wf_strip.
 
 (* the one slack of the number look-ahead is real but harmless: "1.2..." lexes
    to Float, Ellip ... *)
